@@ -394,11 +394,25 @@ def run(ctx: Ctx) -> Outcome:
             add("joinpath", [selfp, n], {"op": "path.joinpath", "self": selfp, "path": n}, list(r._path.parts))
             out.case(("joinpath", tuple(selfp), n), nontrivial=nontrivial(n))
     del fh_abc
-    for n in ["a", "x" * 249, "y" * 250, "z" * 251, "é" * 255, "w" * 300, "a.b.capella"]:
+    tmp_names = ["a", "x" * 249, "y" * 250, "z" * 251, "é" * 255, "w" * 300, "a.b.capella",
+                 # the cut counts UTF-8 bytes and drops whole characters: boundaries for 2-, 3- and 4-byte characters
+                 "é" * 124 + "ab", "é" * 125, "é" * 125 + "a", "é" * 126, "a" + "é" * 125, "€" * 83, "€" * 83 + "a", "€" * 83 + "ab",
+                 "€" * 84, "\U0001F600" * 62, "\U0001F600" * 62 + "ab", "\U0001F600" * 62 + "abc", "\U0001F600" * 63, "." * 251 + ".tmp", ".x.tmp"]
+    tmp_names += ["".join(ctx.rng.choice("aé€\U0001F600.") for _ in range(ctx.rng.randint(60, 260))) for _ in range(ctx.pick(40, 400))]
+    for n in tmp_names:
         for d in ([], ["d"], ["d", "e"]):
             r = fh_local._tmpname(P(*d, n))
             add("tmpname", d + [n], {"op": "path.tmp", "parts": d + [n]}, list(r.parts))
             out.case(("tmp", tuple(d), n))
+            nb = len(n.encode())
+            out.hit("tmpname:" + ("cut" if nb > 250 else "uncut") + (":multibyte" if nb != len(n) else ""))
+            # monitor (no model): the temp name is a sibling, fits the 255-byte limit of a file name, and embeds a
+            # prefix of the name - the whole name whenever that fits
+            inner = r.name[1:-4]
+            if r.parent != P(*d, n).parent or len(os.fsencode(r.name)) > 255 or not (r.name.startswith(".") and r.name.endswith(".tmp")) \
+                    or not n.startswith(inner) or (nb <= 250 and inner != n):
+                out.find("local._tmpname|name-too-long-or-not-a-prefix", f"_tmpname({n[:40]!r}... {nb} bytes) -> {len(os.fsencode(r.name))} bytes",
+                         {"kind": "tmpname", "name": n, "dir": d})
 
     # ---- differential comparison
     if os.environ.get("VERIF_NO_MODEL") != "1":
@@ -425,6 +439,12 @@ def replay(ctx: Ctx, case: dict):
         r = helpers.normalize_pure_path(case["path"], base=case["base"])
         if r.is_absolute() or any(c in ("..", ".", "") for c in r.parts):
             return f"normalize_pure_path -> {r}"
+        return None
+    if case["kind"] == "tmpname":
+        from capellambse.filehandler import local as fh_local
+        r = fh_local._tmpname(pathlib.PurePosixPath(*case["dir"], case["name"]))
+        if len(os.fsencode(r.name)) > 255:
+            return f"_tmpname gives a name of {len(os.fsencode(r.name))} bytes"
         return None
     if case["kind"] == "handler" and case["handler"] == "memory":
         from capellambse.filehandler import memory
